@@ -157,6 +157,11 @@ def bounded(params):
         if bad and len(failures) < 5:
             dash = any("-" in g for g in gnames) and any("unpack" in b or "missing" in b or "ValueError" in b for b in bad)
             failures.append({"input": {"groups": gnames, "subjects": list(subs)}, "problems": bad[:3], "witness_class": WC if dash else None, "replay_kind": "c18.names"})
+    from . import c17 as _c17
+    ho = _c17.header_order({})
+    evals += 1
+    for pb in ho["problems"][:1]:
+        failures.append({"input": {"case": "existing file continued with reordered groups"}, "problems": [pb], "replay_kind": "c17.header_order"})
     return {"evaluations": evals, "distinct_nontrivial": nontriv, "failures": failures,
             "rule": "seeded configurations: 1-3 groups with names from a pool incl. '-', spaces, upper case, tabs, unicode x 1-4 subjects with awkward names x inputs realising TP, empty-side and no-instance scenarios (values incl. nan/inf/None); every value loaded by make_statistic compared with the result's to_dict",
             "bound": "8 configurations (quick), 80 (thorough)"}
